@@ -30,4 +30,4 @@ if [ "$mode" = "--replay" ]; then
 else
   export VERIF_TIER=$mode
 fi
-cd "$run" && ./verif.test
+cd "$run" && timeout ${VERIF_TIMEOUT:-3600} ./verif.test
